@@ -61,6 +61,14 @@ def check_listing(rng, V, n_files, hist):
     for i in range(n_files):
         cmds = [P.gen_cmd(rng) for _ in range(rng.randint(1, 6))]
         text, exp = P.render(rng, cmds, noisy=rng.random() < 0.7)
+        if 8 <= i < 12:
+            # command counts where the width of the index column changes
+            ncmd = rng.choice([[10, 11], [100, 101], [1000, 1001], [9, 99, 999, 1002]][i - 8])
+            text = " ".join(P.render(rng, [P.gen_cmd(rng)], noisy=False)[0] for _ in range(ncmd))
+        if 4 <= i < 8:
+            # deep and wide area trees (up to 60 `?` groups of up to 40 `!` slots): the listing must still determine them
+            cmds = [(rng.randrange(6), rng.choice([1, 2, 3]), rng.choice([0, 1, 5]), P.gen_tree(rng, big=True)) for _ in range(rng.randint(1, 3))]
+            text, exp = P.render(rng, cmds, noisy=False)
         if i < 4:
             # files larger than the usual buffer sizes (4, 8, 64 KiB), multi-byte characters at every offset of a block boundary
             ncmd = [700, 1500, 1500, 12000][i]
@@ -270,7 +278,7 @@ def run(prop, tier, seed):
     else:
         # C04 through the tool: files (among them some larger than any read buffer) parsed by `hyeong check` give the commands
         # the library parser — and the grammar — give for their text
-        samples += check_listing(rng, V, 8 if quick else 60, hist)
+        samples += check_listing(rng, V, 12 if quick else 60, hist)
     if not pc["ok"]:
         V.violation("proof:" + prop, "proof obligations of %s do not check: %s" % (prop, "; ".join(pc["problems"])),
                     dict(theorem_file="coq/Props/%s.v" % prop, problems=pc["problems"]), found_input=False)
